@@ -517,6 +517,42 @@ func runCorruptions(rng *rand.Rand, t *vtree, w *vwriter, mode, label string, pe
 	}
 }
 
+// rewind then re-delivery: a branch is imported, rewound away with SetHead, a competing branch becomes canonical, and the
+// rewound branch arrives again (now as a side branch): lookups must follow the canonical chain at every step
+func runRewindRedeliver(rng *rand.Rand, t *vtree, w *vwriter) {
+	var leaves []*vblk
+	for _, v := range t.blocks {
+		if v.valid && v.parent != nil && len(v.children) == 0 {
+			leaves = append(leaves, v)
+		}
+	}
+	done := 0
+	for _, a := range leaves {
+		for _, b := range leaves {
+			if a == b || done >= 2 {
+				continue
+			}
+			// fork point of a and b
+			pa, pb := pathTo(a), pathTo(b)
+			k := 0
+			for k < len(pa) && k < len(pb) && pa[k] == pb[k] {
+				k++
+			}
+			if k == len(pa) || k == len(pb) {
+				continue
+			}
+			done++
+			n := t.newNode(w, "archive", fmt.Sprintf("rewind-redeliver-%d", done))
+			n.insert(pa)
+			n.setHead(uint64(k)) // back to the fork point
+			n.insert(pb)
+			n.insert(pa[k:])
+			n.insert(pb[k:])
+			n.stop()
+		}
+	}
+}
+
 // header-first import of batches that overlap what the node already has and end in a header breaking a consensus rule: the
 // batch must fail and the bad header must not be stored (one-by-one and batch verification agree)
 func runHeaderCorruptions(rng *rand.Rand, t *vtree, w *vwriter) {
@@ -612,6 +648,7 @@ func runTree(rng *rand.Rand, tr *vtree, w *vwriter, nHist int, rewind bool, emit
 	runRandomHistory(rng, tr, bw, "archive", "headers", 6+rng.Intn(6), true, true)
 	runCorruptions(rng, tr, bw, []string{"archive", "pruning"}[rng.Intn(2)], "corrupt", 1)
 	runHeaderCorruptions(rng, tr, bw)
+	runRewindRedeliver(rng, tr, bw)
 	emitTree(tr)
 	for _, e := range buf.evs {
 		w.emit(e)
